@@ -28,9 +28,10 @@ import traceback
 from pathlib import Path
 
 VERIF = Path("/verif")
-REPO = Path("/repo")
+# VERIF_REPO lets a developer point the checks at a scratch worktree of /repo (never used by registered commands)
+REPO = Path(os.environ.get("VERIF_REPO") or "/repo")
 REPO_SRC = REPO / "src" / "tsim"
-BUILD = VERIF / "build"
+BUILD = VERIF / "build" if str(REPO) == "/repo" else VERIF / "build" / ("alt-" + re.sub(r"[^A-Za-z0-9]+", "_", str(REPO)))
 COQSRC = VERIF / "coq"
 COQBUILD = BUILD / "coq"
 GEN = COQBUILD / "gen"
@@ -121,9 +122,35 @@ ALL_TRANSLATORS: list[str] = []  # filled from translate/__init__.py
 
 
 def all_translators() -> list[str]:
-    import translate
-    importlib.reload(translate)
-    return list(translate.ALL)
+    """every module translate/<name>.py that defines OUT (auto-discovered)"""
+    names = []
+    for f in sorted((VERIF / "translate").glob("*.py")):
+        if f.stem.startswith("_") or f.stem == "pyast":
+            continue
+        if re.search(r"^OUT\s*=", f.read_text(), flags=re.M):
+            names.append(f.stem)
+    return names
+
+
+def translator_outputs() -> dict[str, str]:
+    out = {}
+    for n in all_translators():
+        m = re.search(r"^OUT\s*=\s*[\"']([^\"']+)[\"']", (VERIF / "translate" / f"{n}.py").read_text(), flags=re.M)
+        if m:
+            out[n] = m.group(1)
+    return out
+
+
+COQPROJECT_HEADER = """-Q . TV
+-arg -w -arg -notation-overridden,-deprecated-hint-without-locality,-deprecated-instance-without-locality,-undeclared-scope,-deprecated-syntactic-definition,-opaque-let,-deprecated-hint-rewrite-without-locality,-deprecated-tactic-notation
+"""
+
+
+def write_coqproject():
+    """_CoqProject = header + every .v under coq/ (hand-written) + gen/<OUT> of every translator."""
+    files = sorted(str(p.relative_to(COQSRC)) for p in COQSRC.rglob("*.v") if "gen" not in p.relative_to(COQSRC).parts[:1])
+    gens = sorted("gen/" + o for o in translator_outputs().values())
+    write_if_changed(COQBUILD / "_CoqProject", COQPROJECT_HEADER + "\n".join(gens + files) + "\n")
 
 
 # ----------------------------------------------------------------------------------
@@ -133,7 +160,7 @@ def all_translators() -> list[str]:
 def sync_coq():
     COQBUILD.mkdir(parents=True, exist_ok=True)
     rc, out = sh(
-        ["rsync", "-a", "--include=*/", "--include=*.v", "--include=_CoqProject", "--exclude=*",
+        ["rsync", "-a", "--include=*/", "--include=*.v", "--exclude=*",
          str(COQSRC) + "/", str(COQBUILD) + "/"]
     )
     if rc != 0:
@@ -148,6 +175,7 @@ def sync_coq():
                 q = p.with_suffix(ext)
                 if q.exists():
                     q.unlink()
+    write_coqproject()
 
 
 def coq_make(targets: list[str], timeout=1500) -> tuple[bool, str]:
@@ -235,10 +263,15 @@ def print_assumptions(module: str, theorems: list[str], tag: str) -> dict[str, s
 # ----------------------------------------------------------------------------------
 
 def load_known(pid: str) -> dict[str, dict]:
-    if not KNOWN.exists():
-        return {}
-    data = json.loads(KNOWN.read_text())
-    return {f["key"]: f for f in data.get("findings", []) if f.get("property") == pid and f.get("status") == "known"}
+    """known_findings.json plus known_findings.d/*.json (same format; merged)"""
+    findings = []
+    if KNOWN.exists():
+        findings += json.loads(KNOWN.read_text()).get("findings", [])
+    d = VERIF / "known_findings.d"
+    if d.is_dir():
+        for f in sorted(d.glob("*.json")):
+            findings += json.loads(f.read_text()).get("findings", [])
+    return {f["key"]: f for f in findings if f.get("property") == pid and f.get("status") == "known"}
 
 
 # ----------------------------------------------------------------------------------
